@@ -61,7 +61,8 @@ def projects(d: Path):
              surface="#", bulk="@", grain="GRAIN"),
         dict(name="upper", elements=["E", "H", "HE", "C", "O"], pseudo_elements=["CR", "CRP", "PHOTON"], replacement=[("HE", "He"), ("E", "e")],
              allowed=[], required=[], files=["up.naunet"], formats=["naunet"], heating=[], cooling=[], binding=[], yields=[], shielding=[],
-             rate_modifier=[("3", "2.0e-10 * sqrt(Tgas)")], ode_modifier=[], grain_model="", surface="#", bulk="@", grain="GRAIN"),
+             rate_modifier=[("3", "2.0e-10 * sqrt(Tgas)")], ode_modifier=[("HE", "1.0e-15*nH", ["HE+"]), ("H2", "-2.0e-16*nH", ["H", "H"])], grain_model="",
+             surface="#", bulk="@", grain="GRAIN"),
         # upper-case convention with a replacement table AND per-species tables keyed by names that contain replaced elements
         dict(name="upperice", elements=["E", "H", "HE", "C", "O", "CL"], pseudo_elements=["CR", "CRP", "PHOTON", "CRPHOT"], replacement=[("HE", "He"), ("CL", "Cl")],
              allowed=[], required=[], files=["up.ucl"], formats=["uclchem"], heating=[], cooling=[], binding=[("#HCL", "4321.0"), ("#CO", "1234.5")],
@@ -70,6 +71,10 @@ def projects(d: Path):
         dict(name="yieldonly", elements=de, pseudo_elements=dp, replacement=[], allowed=[], required=[], files=["gas.ucl"], formats=["uclchem"], heating=[], cooling=[],
              binding=[], yields=[("#CO", "0.0027"), ("#H", "0.0013")], shielding=[], rate_modifier=[], ode_modifier=[], grain_model="rr07x", surface="#", bulk="@",
              grain="GRAIN"),
+        # an INDEXED file (KIDA) next to an UNINDEXED one (UCLCHEM), with rate modifiers keyed by the indexed file's numbers
+        dict(name="mixedidx", elements=de, pseudo_elements=dp, replacement=[], allowed=[], required=[], files=["minimal.kida", "gas.ucl"], formats=["kida", "uclchem"],
+             heating=[], cooling=[], binding=[], yields=[], shielding=[], rate_modifier=[("6599", "4.2e-10"), ("4894", "1.0e-9 * zeta")], ode_modifier=[],
+             grain_model="rr07x", surface="#", bulk="@", grain="GRAIN"),
         # explicit grain species (GRAIN0, GRAIN-) and a Leeds-spelled ice
         dict(name="leedsgrain", elements=de, pseudo_elements=dp, replacement=[], allowed=[], required=[], files=["grain.leeds"], formats=["leeds"], heating=[],
              cooling=[], binding=[], yields=[], shielding=[], rate_modifier=[], ode_modifier=[], grain_model="hh93", surface="G", bulk="@", grain="GRAIN"),
@@ -121,18 +126,19 @@ def main(ctx: Ctx) -> int:
     cwd0 = os.getcwd()
     traces = []
     solvers = [("cvode", "dense"), ("cvode", "sparse"), ("odeint", "rosenbrock4")]
-    nrun = 14 if ctx.quick else 84
+    nrun = 16 if ctx.quick else 96
     if MODIFIERS_ONLY:
-        nrun = 6 if ctx.quick else 18
+        nrun = 8 if ctx.quick else 24
     for k in range(nrun):
         d = ctx.sub("proj") / str(k)
         d.mkdir()
         if MODIFIERS_ONLY:
-            base = [b for b in projects(d) if b["rate_modifier"] or b["ode_modifier"]][k % 3]
-            solver, method = solvers[(k // 3) % 3]
+            withmods = [b for b in projects(d) if b["rate_modifier"] or b["ode_modifier"]]
+            base = withmods[k % len(withmods)]
+            solver, method = solvers[(k // len(withmods)) % 3]
         else:
-            base = projects(d)[k % 7]
-            solver, method = solvers[(k // 7) % 3]
+            base = projects(d)[k % 8]
+            solver, method = solvers[(k // 8) % 3]
         # --- tokens with shapes
         ids: dict = {}
 
@@ -162,7 +168,7 @@ def main(ctx: Ctx) -> int:
                 s = f"{key}{sep}{val}"
                 inner = " " in val
                 # a table entry may be typed with blanks around the key, the separator and the value (`CO : VB88Table`): the same entry
-                pad = (k // 7) % 2 == 1 or rng.random() < 0.3
+                pad = (k // 8) % 2 == 1 or rng.random() < 0.3
                 if pad:
                     s = rng.choice([f"{key} {sep} {val}", f" {key}{sep} {val} ", f"{key} {sep}{val}"])
                 toks.append({"shape": "inner" if inner else ("padded" if pad else "plain"), "id": tid_of(opt, f"{key}={val}")})
@@ -187,7 +193,7 @@ def main(ctx: Ctx) -> int:
             om_req[kk]["reactants"].append(list(deps))
         req["ode_modifier"] = [{"shape": "inner" if " " in v3 else "plain", "id": tid_of("ode_modifier", f"{k3}={v3}")} for k3, v3 in om_items(om_req).items()]
         oms = [f"{kk}:{fact},[{' '.join(deps)}]" for kk, fact, deps in base["ode_modifier"]]
-        if len(oms) > 1 and (k // 7) % 2 == 1:
+        if len(oms) > 1 and (k // 8) % 2 == 1:
             # the option may be given several times, each value a ';'-separated list that may end with ';' (the form `naunet example` writes)
             omopts = [f"--ode-modifier='{x};'" for x in oms]
         else:
